@@ -291,6 +291,21 @@ pub fn compare_with_model(
       continue;
     }
     let Module::Js(js) = m else { continue };
+    // the source map reference
+    {
+      let obs = js.maybe_source_map_dependency.as_ref().map(|d| (d.specifier.clone(), obs_res(&d.dependency)));
+      let exp = mg.source_maps.get(js.specifier.as_str()).cloned();
+      if exp.is_some() {
+        acc.count("source_map_references_compared");
+      }
+      if obs != exp {
+        acc.violation(
+          format!("model/source-map-dependency/{}", kind),
+          format!("{}: observed {:?}, source declares {:?}", js.specifier, obs, exp),
+          json!({"ctx": ctx, "module": js.specifier.as_str()}),
+        );
+      }
+    }
     let Some(MSlot::Js { deps, types_dep }) = mg.slots.get(js.specifier.as_str())
     else {
       continue;
